@@ -377,7 +377,7 @@ def main(tier: str, replay: str | None = None):
     # vacuity: every family produced programs, every statement form and every tapped loader function occurs
     ops_seen = {st["op"] for c in cases for e in c["prog"] for st in e["stmts"]}
     frames_seen = {ev[0] for c in cases for ev in c["hist"]}
-    missing = [f for f in fams if not fcount.get(f)] + sorted({"def", "from", "import", "star", "all", "aug"} - ops_seen) + sorted({"LD", "RA", "EE", "EW", "RM", "RT"} - frames_seen)
+    missing = [f for f in fams if not fcount.get(f)] + sorted(({"def", "from", "import", "star", "all"} | ({"aug"} if tier == "thorough" else set())) - ops_seen) + sorted({"LD", "RA", "EE", "EW", "RM", "RT"} - frames_seen)
     if missing or len(cases) < (1000 if tier == "quick" else 20000) or not any(c["diff"] for c in cases):
         die(f"C05: vacuous enumeration: missing {missing}, {len(cases)} programs")
     rnd = random.Random(SEED)
